@@ -63,6 +63,8 @@ func newGen(prog *ssa.Program, pkg *ssa.Package, specs *SpecSet) *Gen {
 	return g
 }
 
+var noRetryFlag bool
+
 func main() {
 	repo := flag.String("repo", "/repo", "repository directory")
 	tags := flag.String("tags", "verif", "build tags")
@@ -76,9 +78,11 @@ func main() {
 	overlay := flag.String("overlaymod", "", "module directory with replace directives (vectors build)")
 	jsonOut := flag.String("json", "", "write machine-readable results to this file")
 	loopsOf := flag.String("loops", "", "print the loop ordinals (with source positions) of the named function and exit")
+	noRetry := flag.Bool("noretry", false, "do not restart obligations on which a solver ran out of time (used when a failure is the expected outcome)")
 	flag.Parse()
 
 	initScratch()
+	noRetryFlag = *noRetry
 	defer cleanupScratch()
 	t0 := time.Now()
 	if strings.Contains(*tags, "vectors") && *overlay == "" {
